@@ -158,10 +158,11 @@ func discoveryRun(in interface{}) (string, interface{}, map[string]int) {
 		}
 		sort.Ints(ob.ByHash)
 		if opi == len(c.Ops)-1 { // WaitInit polls once per second: only measured at the end of a history
-			wctx, wcancel := context.WithTimeout(context.Background(), 1300*time.Millisecond)
-			t0 := time.Now()
+			// WaitInit looks once per second; "done" = it returned before the context expired (not a duration
+			// measured here: under load the tick can be late)
+			wctx, wcancel := context.WithTimeout(context.Background(), 2600*time.Millisecond)
 			_ = td.WaitInit(wctx)
-			done := time.Since(t0) < 1200*time.Millisecond
+			done := wctx.Err() == nil
 			ob.InitDone = &done
 			wcancel()
 		}
